@@ -745,6 +745,41 @@ def consume_oracle(ex, usable, og, cs, fail, reg=None):
                     same = True
                 if not same:
                     fail(f'C10:mutated:{maker}:{shape(hm)}', f'checking {rb:.80} against {h!r:.160} changed it to {x!r:.80}', rp)
+    # the truth value of the checked object is user code the property does not allow a check to run: mappings / lists
+    # that record __bool__ (only __len__, iteration and indexing are read-only protocol code)
+    class BoolSpyDict(dict):
+        calls = 0
+
+        def __bool__(self):
+            BoolSpyDict.calls += 1
+            return len(self) > 0
+
+    class BoolSpyList(list):
+        calls = 0
+
+        def __bool__(self):
+            BoolSpyList.calls += 1
+            return len(self) > 0
+    for h, hm in usable:
+        k0 = hm[0] if isinstance(hm, list) else None
+        for spy, x in ((BoolSpyDict, BoolSpyDict({'a': 1})), (BoolSpyList, BoolSpyList([1, 'a']))):
+            if (spy is BoolSpyDict) != (k0 == 'map'):
+                continue
+            if spy is BoolSpyList and k0 not in ('seq', 'reit', 'quasi'):
+                continue
+            spy.calls = 0
+            for cn in ('default', 'nonrandom'):
+                for f in (is_bearable, die_if_unbearable):
+                    real.DRAW[0] = 1
+                    try:
+                        f(x, h, conf=cs[cn])
+                    except Exception:
+                        pass
+            n += 1
+            kinds['bool-spy'] += 1
+            if spy.calls:
+                fail(f'C10:ran-user-code:__bool__:{shape(hm)}', f'checking a {spy.__name__} against {h!r:.160} called its __bool__ {spy.calls} time(s)',
+                     {'hint': repr(h), 'object_kind': spy.__name__})
     if pending:
         cid = reg.id(gen.CollectionOneShot)
         items = [obj_model(b, reg) for b in [1, 'a', 2]]
